@@ -10,39 +10,53 @@ open JediModel.PyCore
 
 /-- **Soundness.** For every PyCore program, every amount of fuel, every module-level position
 and every expression that the run evaluates to a value `v`: jedi's inference offers a shape that
-describes `v` — same kind, same creating `def`/`class` statement, and for tuples, position by
-position, recursively. No well-formedness hypothesis is needed: where the program would fail at
-run time `evalC` is `none` and nothing is claimed. -/
-theorem may_sound (p : Prog) (fuel pos : Nat) (e : Expr) (v : Val)
+describes `v` — same kind, same creating `def`/`class` statement, and for tuples and constructor
+arguments, position by position, recursively.  Where the program would fail at run time `evalC`
+is `none` and nothing is claimed.  Hypothesis `WFClasses` (static, decidable): a base class is
+named by its class name, and only classes without a base define `__init__`.  The second clause
+is forced — see `derived_init_hides_base_self_attribute` below (FULL statement false, replayed on
+the real code). -/
+theorem may_sound_partial (p : Prog) (hwf : WFClasses p = true) (fuel pos : Nat) (e : Expr) (v : Val)
     (h : evalC p fuel (.module pos) e = some v) :
     ∃ s ∈ mayE p fuel (.module pos) e, covers v s = true :=
-  coversAny_iff.mp ((sound p fuel).eval (.module pos) (.module pos) e v rfl h)
+  coversAny_iff.mp ((sound p hwf fuel).eval (.module pos) (.module pos) e v rfl h)
 
 /-- a describing shape has the same top-level class -/
 theorem covers_top (v : Val) (s : Shape) (h : covers v s = true) : s.top = v.top := by
   cases v <;> cases s <;> simp_all [covers, Val.top, Shape.top]
+  all_goals first | exact h.1.symm | exact ⟨h.1.2.symm, h.2.symm⟩ | skip
 
 /-- **The class of the run-time value is among the definitions `infer` reports, and that
 definition points at the statement that really created the value.** -/
-theorem may_sound_class (p : Prog) (fuel pos : Nat) (e : Expr) (v : Val)
-    (h : evalC p fuel (.module pos) e = some v) :
+theorem may_sound_class_partial (p : Prog) (hwf : WFClasses p = true) (fuel pos : Nat) (e : Expr)
+    (v : Val) (h : evalC p fuel (.module pos) e = some v) :
     v.top ∈ (mayE p fuel (.module pos) e).map Shape.top := by
-  obtain ⟨s, hs, hc⟩ := may_sound p fuel pos e v h
+  obtain ⟨s, hs, hc⟩ := may_sound_partial p hwf fuel pos e v h
   exact List.mem_map.mpr ⟨s, hs, covers_top v s hc⟩
 
 /-- the same inside a function body whose parameters are bound to described arguments -/
-theorem may_sound_in_function (p : Prog) (fuel id : Nat) (args : List Val)
-    (as : List (List Shape)) (hargs : coversList args as = true) (e : Expr) (v : Val)
-    (h : evalC p fuel (.func id args) e = some v) :
+theorem may_sound_in_function (p : Prog) (hwf : WFClasses p = true) (fuel id : Nat)
+    (args : List Val) (as : List (List Shape)) (hargs : coversList args as = true) (e : Expr)
+    (v : Val) (h : evalC p fuel (.func id args) e = some v) :
     ∃ s ∈ mayE p fuel (.func id as) e, covers v s = true :=
-  coversAny_iff.mp ((sound p fuel).eval (.func id args) (.func id as) e v ⟨rfl, hargs⟩ h)
+  coversAny_iff.mp ((sound p hwf fuel).eval (.func id args) (.func id as) e v ⟨rfl, hargs⟩ h)
+
+/-- ... and inside a method body (`m = none`: `__init__`) with `self` and the arguments described -/
+theorem may_sound_in_method (p : Prog) (hwf : WFClasses p = true) (fuel cid : Nat) (m : Option Nat)
+    (sv : Val) (ss : Shape) (hs : covers sv ss = true) (args : List Val) (as : List (List Shape))
+    (hargs : coversList args as = true) (e : Expr) (v : Val)
+    (h : evalC p fuel (.meth cid m sv args) e = some v) :
+    ∃ s ∈ mayE p fuel (.meth cid m ss as) e, covers v s = true :=
+  coversAny_iff.mp ((sound p hwf fuel).eval (.meth cid m sv args) (.meth cid m ss as) e v
+    ⟨rfl, rfl, hs, hargs⟩ h)
 
 /-- **Exactness.** In a program without conditionals only one value can reach any expression,
 and `infer` reports exactly that value's shape and nothing else. -/
-theorem may_exact (p : Prog) (hp : p.ternFree = true) (fuel pos : Nat) (e : Expr) (v : Val)
+theorem may_exact (p : Prog) (hp : p.ternFree = true) (hwf : WFClasses p = true)
+    (hs : SingleAssignInit p = true) (fuel pos : Nat) (e : Expr) (v : Val)
     (he : e.ternFree = true) (h : evalC p fuel (.module pos) e = some v) :
     mayE p fuel (.module pos) e = [erase v] :=
-  (exact p hp fuel).eval (.module pos) e v he h
+  (exact p hp hwf hs fuel).eval (.module pos) e v he h
 
 /-- the erased value is described by itself (so `may_exact` refines `may_sound`) -/
 theorem covers_erase : (∀ v : Val, covers v (erase v) = true) := by
@@ -52,7 +66,8 @@ theorem covers_erase : (∀ v : Val, covers v (erase v) = true) := by
   | str => rfl
   | func i => simp [erase, covers]
   | cls i => simp [erase, covers]
-  | inst i => simp [erase, covers]
+  | inst i vs ih => simpa [erase, covers] using ih
+  | bound r c m ih => simp [erase, covers, ih]
   | tuple vs ih => simpa [erase, covers] using ih
   | nil => rfl
   | cons v vs ihv ihvs => simp [eraseList, coversList, coversAny, ihv, ihvs]
@@ -66,16 +81,45 @@ theorem conditional_reports_both_arms :
       = [.int, .str] := by
   decide
 
+/-- FULL soundness (without `WFClasses`) is false of the unchanged code:
+`class B:` / `    def __init__(self): self.a = 1` / `class D(B):` / `    a = 's'` /
+`    def __init__(self): pass` / `D().a` — the run gives `'s'` (B's `__init__` never runs),
+jedi's `SelfAttributeFilter` finds `self.a = 1` in `B.__init__` first and reports only `int`.
+(names: B=0, D=1, a=2) -/
+def witnessDerivedInit : Prog :=
+  [.klass 0 none [] (some ⟨[], [(2, .int)]⟩) [],
+   .klass 1 (some 0) [(2, .str)] (some ⟨[], []⟩) [],
+   .probe (.attr (.call (.name 1) []) 2)]
+
+theorem derived_init_hides_base_self_attribute :
+    WFClasses witnessDerivedInit = false ∧
+    (evalC witnessDerivedInit 20 (.module 2) (.attr (.call (.name 1) []) 2)).map Val.top = some .str ∧
+    (mayE witnessDerivedInit 20 (.module 2) (.attr (.call (.name 1) []) 2)).map Shape.top = [.int] := by
+  decide
+
 /-! ## non-vacuity -/
 
 /-- `class C: a = (1, 's')` / `def f(p): return p.a[1]` / `x = f(C())`: the run gives `str`,
 so does jedi, exactly. (names: C=0, a=1, f=2, p=3, x=4) -/
 example :
-    let p : Prog := [.klass 0 none [(1, .tuple [.int, .str])],
+    let p : Prog := [.klass 0 none [(1, .tuple [.int, .str])] none [],
                      .defn 2 [3] (.index (.attr (.name 3) 1) 1),
                      .assign 4 (.call (.name 2) [.call (.name 0) []]),
                      .probe (.name 4)]
-    p.ternFree = true ∧ (evalC p 20 (.module 3) (.name 4)).map Val.top = some .str ∧
+    p.ternFree = true ∧ WFClasses p = true ∧ SingleAssignInit p = true ∧
+    (evalC p 20 (.module 3) (.name 4)).map Val.top = some .str ∧
     (mayE p 20 (.module 3) (.name 4)).map Shape.top = [.str] := by decide
+
+/-- `class C:` / `    def __init__(self, p): self.b = (p, 1)` / `    def m(self): return self.b[0]` /
+`x = C('s').m()`: constructor argument flows through `self.b` into the method result.
+(names: C=0, p=1, b=2, m=3, x=4) -/
+example :
+    let p : Prog := [.klass 0 none [] (some ⟨[1], [(2, .tuple [.name 1, .int])]⟩)
+                       [⟨3, [], .index (.attr .self 2) 0⟩],
+                     .assign 4 (.call (.attr (.call (.name 0) [.str]) 3) []),
+                     .probe (.name 4)]
+    p.ternFree = true ∧ WFClasses p = true ∧ SingleAssignInit p = true ∧
+    (evalC p 30 (.module 2) (.name 4)).map Val.top = some .str ∧
+    (mayE p 30 (.module 2) (.name 4)).map Shape.top = [.str] := by decide
 
 end JediModel.Props.C02
